@@ -16,6 +16,7 @@ import (
 	nullmetrics "github.com/attestantio/vouch/services/metrics/null"
 	"github.com/attestantio/vouch/services/validatorsmanager"
 	"github.com/rs/zerolog"
+	e2wallet "github.com/wealdtech/go-eth2-wallet"
 	e2wtypes "github.com/wealdtech/go-eth2-wallet-types/v2"
 )
 
@@ -175,23 +176,70 @@ func VerifC13_State() {
 func VerifC17_RefreshVsLookup() {
 	vm := &c13Validators{recs: map[phase0.BLSPubKey]*phase0.Validator{}, idx: map[phase0.BLSPubKey]phase0.ValidatorIndex{}}
 	ct := vstub.NewChainTime(0)
-	s := c13New(vm, ct, "C17.new.accepted")
-	key := phase0.BLSPubKey{1}
-	s.accounts[key] = &vstub.Account{Tag: 1, Nm: "acc"}
-	vm.recs[key] = &phase0.Validator{PublicKey: key, ActivationEpoch: 0, ExitEpoch: c13FarFuture, WithdrawableEpoch: c13FarFuture}
-	vm.idx[key] = 100
+	mk := func(i int) *c13Locked {
+		k := phase0.BLSPubKey{byte(i + 1)}
+		acc := &c13Locked{}
+		acc.Tag, acc.Nm = uint64(i+1), "acc"
+		acc.Key.B = k
+		vm.recs[k] = &phase0.Validator{PublicKey: k, ActivationEpoch: 0, ExitEpoch: c13FarFuture, WithdrawableEpoch: c13FarFuture}
+		vm.idx[k] = phase0.ValidatorIndex(100 + i)
+		return acc
+	}
+	// the wallet as the stores hold it (opening it is replaced: VerifStub_e2wallet_OpenWallet)
+	w := &vstub.Wallet{Nm: "W1"}
+	c13Wallets = map[string]e2wtypes.Wallet{"W1": w}
+	nOld := vnd.IntRange("known-accounts", 0, 2)
+	for i := 0; i < nOld; i++ {
+		w.Accs = append(w.Accs, mk(i))
+	}
+	// built as main builds it: New loads the accounts a first time
+	s, err := New(context.Background(), WithLogLevel(zerolog.Disabled), WithMonitor(&nullmetrics.Service{}),
+		WithProcessConcurrency(2), WithLocations([]string{"/nonexistent/wallets"}), WithAccountPaths([]string{"W1"}), WithPassphrases([][]byte{[]byte("secret")}),
+		WithValidatorsManager(vm), WithSpecProvider(c13Chain{}), WithFarFutureEpochProvider(c13Chain{}),
+		WithDomainProvider(c13Chain{}), WithCurrentEpochProvider(ct))
+	vnd.Assert(err == nil && s != nil && len(s.accounts) == nOld, "C17.new.accepted")
+	// what the wallet holds at the second refresh
+	nNew := vnd.IntRange("accounts-now", 0, 2)
+	w.Accs = nil
+	for i := 0; i < nNew; i++ {
+		w.Accs = append(w.Accs, mk(2-i))
+	}
 	variant := vnd.Choose("lookup", 2)
+	var got map[phase0.ValidatorIndex]e2wtypes.Account
 	go s.refreshAccounts(context.Background())
 	go func() {
 		if variant == 0 {
-			_, _ = s.ValidatingAccountsForEpoch(context.Background(), 5)
+			got, _ = s.ValidatingAccountsForEpoch(context.Background(), 5)
 		} else {
-			_, _ = s.ValidatingAccountsForEpochByIndex(context.Background(), 5, []phase0.ValidatorIndex{100})
+			got, _ = s.ValidatingAccountsForEpochByIndex(context.Background(), 5, []phase0.ValidatorIndex{100, 102})
 		}
 	}()
 	left := vnd.Quiesce()
 	vnd.Assert(left == 0, "C17.accounts.everything-returns")
+	// the answer is that of the lookup before the refresh or after it
+	asOld, asNew := true, true
+	for i := 0; i < 3; i++ {
+		acc, has := got[phase0.ValidatorIndex(100+i)]
+		if has {
+			vnd.Assert(acc != nil && acc.PublicKey().Marshal()[0] == byte(i+1), "C17.accounts.validator-reported-with-its-own-account")
+		}
+		asked := variant == 0 || i != 1
+		asOld = asOld && has == (asked && i < nOld)
+		asNew = asNew && has == (asked && i >= 3-nNew)
+	}
+	vnd.Assert(asOld || asNew, "C17.accounts.answer-is-that-of-the-lookup-before-or-after-the-refresh")
 	vnd.Cover("C17.accounts.overlap-explored")
+}
+
+// c13Wallets is what opening a wallet by name gives.
+var c13Wallets map[string]e2wtypes.Wallet
+
+// VerifStub_e2wallet_OpenWallet stands for e2wallet.OpenWallet, which reads and decrypts the wallet stores.
+func VerifStub_e2wallet_OpenWallet(name string, _ ...e2wallet.Option) (e2wtypes.Wallet, error) {
+	if w, ok := c13Wallets[name]; ok {
+		return w, nil
+	}
+	return nil, errors.New("wallet not found")
 }
 
 // a keystore account: can be unlocked with the passphrase "secret"
